@@ -93,15 +93,25 @@ Example C07_nonvacuous_tree :
 Proof. vm_compute. auto. Qed.
 
 (* ---- the xid through the gRPC, gin and dubbo integrations (Tm/Carrier.v: the key the
-   sender writes, the transport's key normalisation, the receiver's lookups) *)
+   sender writes, the transport's key normalisation, multi-valued / wrapped / ill-typed values,
+   the receiver's lookups in their order) *)
 
-(* a header set under key k arrives as the callee's xid exactly when k is an accepted
-   spelling, and then byte for byte; otherwise the callee sees no transaction *)
-Theorem C07_carrier_single : forall c k x, carried c [(k, x)] = if accepted c k then x else [].
+(* a header set under key k, whatever the shape of its value (a string, a list of strings as
+   gRPC/HTTP multi-values or the triple protocol's wrapped attachment, or another type),
+   arrives as the callee's xid exactly when k is an accepted spelling, and then it is the
+   (first) string held, byte for byte; otherwise the callee sees no transaction *)
+Theorem C07_carrier_single : forall c k v,
+  carried c [(k, v)] = if accepted c k then hd [] (vals v) else [].
 Proof. exact carried_single. Qed.
 
-(* sender half followed by receiver half is the identity on every xid *)
-Theorem C07_carrier_roundtrip : forall c x, carried c (inject c x) = x.
+Theorem C07_carrier_wrapped : forall c k x, accepted c k = true ->
+  carried c [(k, AStr x)] = x /\ carried c [(k, AList [x])] = x.
+Proof. exact carrier_accepted. Qed.
+
+(* sender half followed by receiver half is the identity on every non-empty xid, for ALL
+   headers the outgoing context / request / invocation already holds: other keys, the same
+   key with an older value, other spellings, wrapped or ill-typed values *)
+Theorem C07_carrier_roundtrip : forall c pre x, x <> [] -> carried c (inject c x pre) = x.
 Proof. exact carrier_roundtrip. Qed.
 
 (* every upper/lower-case spelling of TX_XID is accepted by the gRPC and gin receivers *)
@@ -112,5 +122,10 @@ Proof. exact case_spellings_accepted. Qed.
 Example C07_carrier_nonvacuous :
   accepted Dubbo (bytes_of_string "seata_xid") = true /\ accepted Gin (bytes_of_string "tX_xId") = true /\
   accepted Grpc (bytes_of_string "TX-XID") = false /\
-  carried Gin [(bytes_of_string "tX_xId", bytes_of_string "10.0.0.1:8091:42")] = bytes_of_string "10.0.0.1:8091:42".
-Proof. vm_compute. auto. Qed.
+  carried Gin [(bytes_of_string "tX_xId", AStr (bytes_of_string "10.0.0.1:8091:42"))] = bytes_of_string "10.0.0.1:8091:42" /\
+  carried Dubbo (inject Dubbo (bytes_of_string "new")
+                   [(bytes_of_string "seata_xid", AStr (bytes_of_string "stale")); (k_TX_XID, AList [bytes_of_string "stale"])])
+    = bytes_of_string "new" /\
+  carried Grpc [(bytes_of_string "Tx_Xid", AList [bytes_of_string "a"; bytes_of_string "b"]); (k_tx_xid, AStr (bytes_of_string "c"))]
+    = bytes_of_string "a".
+Proof. vm_compute. auto 10. Qed.
